@@ -9,8 +9,14 @@ EXPLANATION = (
     "exactly the out-of-range indexes; the keep_rows kernels (count_true, keep_mask_to_id_map, subset_*_column, "
     "subset_ragged_char_column) against the ghost rank function: kept rows are compacted in order with their "
     "bytes and boundaries. Every postcondition is over the whole view (all other rows equal) and includes the "
-    "representation invariant. The other seven table types share these helpers but their row operations, and the "
-    "Python facade / immutability of TreeSequence, are covered only by the bounded stand-in."
+    "representation invariant. add_row of the other seven tables (edge, site, mutation, migration, individual, "
+    "population, provenance) is proved against the same list-of-rows view from one contract template over each "
+    "table's column list: the new view is the old view plus exactly the given row (fixed columns, ragged offsets "
+    "and bytes), or on an error return every row, length and the representation invariant are unchanged. The "
+    "bounds/monotonicity axioms about the ghost functions rank/newoff and the transitive form of offset "
+    "monotonicity are proved by induction (base and step discharged) in lemmas/induction.py. The remaining row "
+    "operations of those tables, and the Python facade / immutability of TreeSequence, are covered only by the "
+    "bounded stand-in."
 )
 C_FUNCS = [
     ("tables.c", "check_table_overflow"), ("tables.c", "check_offset_overflow"),
@@ -24,14 +30,28 @@ C_FUNCS = [
     ("tables.c", "subset_id_column"), ("tables.c", "subset_flags_column"), ("tables.c", "subset_double_column"),
     ("tables.c", "subset_ragged_char_column"),
     ("tables.c", "check_offsets"),
-]
+    ("tables.c", "tsk_edge_table_has_metadata"),
+] + [("tables.c", "tsk_%s_table_%s" % (t, f)) for (t, fs) in (
+    ("edge", ["expand_main_columns", "expand_metadata", "add_row"]),
+    ("site", ["expand_main_columns", "expand_ancestral_state", "expand_metadata", "add_row"]),
+    ("mutation", ["expand_main_columns", "expand_derived_state", "expand_metadata", "add_row"]),
+    ("migration", ["expand_main_columns", "expand_metadata", "add_row"]),
+    ("population", ["expand_main_columns", "expand_metadata", "add_row_internal", "add_row"]),
+    ("provenance", ["expand_main_columns", "expand_timestamp", "expand_record", "add_row_internal", "add_row"]),
+    ("individual", ["expand_main_columns", "expand_location", "expand_parents", "expand_metadata", "add_row_internal", "add_row"]),
+) for f in fs]
+LEMMAS = ["lemmas.induction:offsets_transitive", "lemmas.induction:rank_bounds_and_monotone",
+          "lemmas.induction:newoff_bounds_and_monotone"]
 BOUNDED = [{"name": "list_model", "module": "standins.c13_listmodel", "timeout": 900}]
-UNVERIFIED = ["row operations of the edge/site/mutation/migration/individual/population/provenance tables",
+UNVERIFIED = ["truncate/clear/get_row of the edge/site/mutation/migration/individual/population/provenance tables",
+              "edge tables created with TSK_TABLE_NO_METADATA (add_row contract covers the default variant)",
               "tsk_*_table_update_row, _extend, _append_columns, _set_columns, _takeset_columns, _keep_rows, _copy",
               "python/tskit/tables.py facade", "TreeSequence immutability (numpy flags in _tskitmodule.c)"]
 ASSUMPTIONS = [
-    "ghost functions rank/newoff: their defining recurrences plus bounds and monotonicity (consequences by "
-    "induction on j) are given as axioms in the preconditions",
+    "ghost functions rank/newoff: their defining recurrences plus bounds and monotonicity are given as axioms in "
+    "the preconditions; the latter are proved from the former by induction in lemmas/induction.py, the induction "
+    "principle over the naturals being the trusted meta-step",
+    "location/parents rows of the individual table are shorter than 2^57 elements",
     "expand_ragged_column with element size > 1: lengths stay below 2^57 elements (byte size representable)",
     "self->metadata and the metadata argument of add_row may overlap (memmove); other distinct pointers denote "
     "distinct regions",
